@@ -3,6 +3,7 @@ normal forms in F_q[inputs], with the definitional arithmetic - for every input 
 the signature admits (so the same runs also decide C18 at value level for these routines)."""
 from .facts import walk, strip, loc_str, strip_tmpl
 from . import gvn, poly, bls
+from . import pathrules as pr
 from .poly import Poly, F2, F6, F12, XI, ZERO, ONE, flat, sym_f2, sym_f6, sym_f12
 from . import buildmodel as bm
 
@@ -650,4 +651,278 @@ def rule_miller_lines(ctx, cfg, prog, rule='R-POLY/line'):
     n += 1
     ctx.ob(rule, (poly.Q ** 12 - 1) % bls.R_ORDER == 0 and e % (poly.Q ** 4 - 1) == 0, 'line|subfield-factors', loc_str(f),
            'the final exponent is not a multiple of q^4 - 1: Fq2 / Fq4 factors of the line values would survive', cfg=cfg)
+    return n
+
+
+# ------------------------------------------------------------------ Fq2 square root (C04, C09)
+class _Mono:
+    """c * prod atom^exp with c in {1, -1, u, -u}; atoms: 'a' and opaque sums"""
+
+    def __init__(self, c='1', e=None):
+        self.c, self.e = c, {k: v for k, v in (e or {}).items() if v}
+
+    def mul(self, o):
+        e = dict(self.e)
+        for k, v in o.e.items():
+            e[k] = e.get(k, 0) + v
+        table = {('1', '1'): '1', ('1', 'u'): 'u', ('u', '1'): 'u', ('u', 'u'): '-1', ('-1', '1'): '-1', ('1', '-1'): '-1', ('-1', '-1'): '1',
+                 ('-1', 'u'): '-u', ('u', '-1'): '-u', ('-u', '1'): '-u', ('1', '-u'): '-u', ('-u', 'u'): '1', ('u', '-u'): '1',
+                 ('-u', '-1'): 'u', ('-1', '-u'): 'u', ('-u', '-u'): '-1'}
+        return _Mono(table[(self.c, o.c)], e)
+
+    def pw(self, n):
+        if self.c != '1':
+            raise gvn.Unsupported('power of a scaled term')
+        return _Mono('1', {k: v * n for k, v in self.e.items()})
+
+    def key(self):
+        return (self.c, tuple(sorted(self.e.items())))
+
+    def __repr__(self):
+        return '%s*%s' % (self.c, '*'.join('%s^%s' % (k, hex(v)[:18]) for k, v in sorted(self.e.items())) or '1')
+
+
+def rule_fq2_sqrt(ctx, cfg, prog, rule='R-POLY/sqrt'):
+    """Fq2::square_root is the q = 3 (mod 4) algorithm: a1 = a^((q-3)/4), alpha = a1^2 a = a^((q-1)/2), x0 = a1 a = a^((q+1)/4);
+    if alpha == -1 then x = u x0 (x^2 = -x0^2 = -a alpha = a) else x = x0 (alpha + 1)^((q-1)/2) (x^2 = a alpha (1+alpha)^(q-1) = a since
+    alpha has norm 1).  The exceptional branch must be guarded by the FULL equality alpha == -1: alpha = +1 also has c1 == 0."""
+    f = the_fn(prog, NS + 'Fq2::square_root')
+    q = poly.Q
+    env = {}          # location string -> _Mono
+    sums = {}
+    guards = []
+    problems = []
+    pn = f['params'][0]['name']
+
+    def locof(e):
+        return pr.norm_obj(pr.canon(e))
+
+    def rd(e):
+        l = locof(e)
+        if l == 'P:' + pn:
+            return _Mono('1', {'a': 1})
+        if l in env:
+            return env[l]
+        if l.endswith('Fq2::one') or l.endswith('::one'):
+            return _Mono('1', {})
+        raise gvn.Unsupported('read of %s' % l)
+
+    def const_int(e):
+        v = None
+        for x in walk(e):
+            if x.get('k') == 'ref' and x.get('rk') == 'global':
+                g = prog.globals.get(x['g'])
+                if g is not None and 'value' in g:
+                    v = consts_as_int(g['value'])
+        return v
+
+    def consts_as_int(val):
+        from . import consts
+        return consts.as_int(consts.decode(val))
+
+    def run(stmts, branch):
+        for s in stmts:
+            k = s.get('k')
+            if k == 'compound':
+                run(s['body'], branch)
+            elif k == 'decl':
+                for v in s['vars']:
+                    init = v.get('init')
+                    if init is not None and init.get('k') == 'initlist':
+                        names = [x['g'].split('::')[-1] for x in walk(init) if x.get('k') == 'ref' and x.get('rk') == 'global']
+                        env['L%d' % v['id']] = _Mono('u', {}) if names == ['zero', 'one'] else (_Mono('1', {}) if names == ['one', 'zero'] else None)
+            elif k == 'expr':
+                e = strip(s['e'])
+                if e.get('k') != 'call':
+                    raise gvn.Unsupported('statement at %s' % loc_str(s))
+                name, args = e.get('name'), e.get('args', [])
+                if name == 'exponentiate':
+                    n = const_int(args[2])
+                    if n is None:
+                        raise gvn.Unsupported('exponent at %s is not a constant' % loc_str(e))
+                    env[locof(args[0])] = rd(args[1]).pw(n)
+                elif e.get('this') is not None:
+                    tl = locof(e['this'])
+                    if name == 'square':
+                        env[tl] = rd(args[0]).pw(2)
+                    elif name == 'multiply':
+                        a_, b_ = rd(args[0]), rd(args[1])
+                        if a_ is None or b_ is None:
+                            raise gvn.Unsupported('operand at %s' % loc_str(e))
+                        env[tl] = a_.mul(b_)
+                    elif name == 'add':
+                        ks = sorted([rd(args[0]).key(), rd(args[1]).key()])
+                        nm = sums.setdefault(tuple(ks), 'S%d' % (len(sums) + 1))
+                        env[tl] = _Mono('1', {nm: 1})
+                    elif name == 'copy':
+                        env[tl] = rd(args[0])
+                    else:
+                        raise gvn.Unsupported('operation %s at %s' % (name, loc_str(e)))
+                else:
+                    raise gvn.Unsupported('call %s at %s' % (name, loc_str(e)))
+            elif k == 'if':
+                c = strip(s['c'])
+                if c.get('k') == 'call' and c.get('name') == 'is_zero' and locof(c['this']) == 'P:' + pn:
+                    continue        # zero special case
+                guards.append((c, dict(env)))
+                saved = dict(env)
+                run([s['then']], 'then')
+                results['then'] = env.get('this')
+                env.clear()
+                env.update(saved)
+                if s.get('else'):
+                    run([s['else']], 'else')
+                results['else'] = env.get('this')
+            elif k == 'return':
+                pass
+            else:
+                raise gvn.Unsupported('statement %s at %s' % (k, loc_str(s)))
+    results = {}
+    why = []
+    try:
+        run([f['body']], None)
+    except gvn.Unsupported as e:
+        why.append('the routine left the shape of the q = 3 (mod 4) algorithm: %s' % e)
+    ok = not why
+    if ok:
+        if len(guards) != 1:
+            ok = False
+            why.append('expected exactly one run-time branch (alpha == -1), found %d' % len(guards))
+    if ok:
+        c, envg = guards[0]
+        x0 = envg.get('this')
+        is_eq = c.get('k') == 'call' and c.get('name') == 'equal' and len(c.get('args', [])) == 2
+        alpha = None
+        if is_eq:
+            ls = [locof(a) for a in c['args']]
+            other = [l for l in ls if not l.endswith('negative_one')]
+            if len(other) == 1 and any(l.endswith('Fq2::negative_one') for l in ls):
+                alpha = envg.get(other[0])
+        if alpha is None:
+            ok = False
+            why.append('the exceptional branch is not guarded by the full equality alpha == -1 (Fq2::equal with Fq2::negative_one): a test of one '
+                       'coordinate also holds for alpha = +1, where u * x0 squares to -a')
+        else:
+            if alpha.key() != _Mono('1', {'a': (q - 1) // 2}).key():
+                ok = False
+                why.append('alpha is %r, not a^((q-1)/2)' % alpha)
+            if x0 is None or x0.key() != _Mono('1', {'a': (q + 1) // 4}).key():
+                ok = False
+                why.append('x0 is %r, not a^((q+1)/4)' % x0)
+            rt, re_ = results.get('then'), results.get('else')
+            if rt is None or rt.key() != _Mono('u', {'a': (q + 1) // 4}).key():
+                ok = False
+                why.append('the exceptional branch yields %r, not u * a^((q+1)/4)' % rt)
+            want_sum = tuple(sorted([_Mono('1', {'a': (q - 1) // 2}).key(), _Mono('1', {}).key()]))
+            sname = sums.get(want_sum)
+            if re_ is None or sname is None or re_.key() != _Mono('1', {'a': (q + 1) // 4, sname: (q - 1) // 2}).key():
+                ok = False
+                why.append('the general branch yields %r, not a^((q+1)/4) * (alpha + 1)^((q-1)/2)' % re_)
+    ctx.ob(rule, ok, 'sqrt|Fq2::square_root', loc_str(f), 'Fq2::square_root: %s' % ' ;; '.join(why), cfg=cfg,
+           sample=dict(config=cfg, routine='Fq2::square_root', algorithm='q = 3 mod 4 (Adj, Rodriguez-Henriquez)', exponents='(q-3)/4, (q-1)/2'))
+    return 1
+
+
+# ------------------------------------------------------------------ predicates of the tower (C04, C05)
+def rule_tower_predicates(ctx, cfg, prog, rule='R-PRED'):
+    """is_zero / is_one / equal of Fq2, Fq6, Fq12 are the conjunctions their definitions require: all coordinates zero; leading
+    coordinate one and the others zero; all coordinates equal.  The bodies are expanded down to the base-field predicates."""
+    n = 0
+    leaves_of = {}
+
+    def leaves(tn):
+        if tn not in leaves_of:
+            t = type_of(prog, tn)
+            leaves_of[tn] = [p for (p, kind) in gvn.leaf_paths(prog, t) if kind == 'fq']
+        return leaves_of[tn]
+
+    def expand(f, prefix, depth=0):
+        """conjunction (frozenset of atoms) computed by predicate f applied to the object at `prefix`, or None when not a pure conjunction"""
+        if depth > 6:
+            return None
+        inits = {}
+        for x in walk(f['body']):
+            if x.get('k') == 'decl':
+                for v in x['vars']:
+                    if v.get('init') is not None:
+                        inits[v['id']] = v['init']
+        rets = [x for x in walk(f['body']) if x.get('k') == 'return']
+        if len(rets) != 1 or rets[0].get('e') is None:
+            return None
+
+        def obj_path(e):
+            """member path below this / the parameters, as a tuple, plus which operand ('this', 0, 1)"""
+            e = strip(e)
+            while e.get('k') == 'cast':
+                e = strip(e['e'])
+            path = []
+            while e.get('k') == 'member':
+                path.append(e['name'])
+                e = strip(e['base'])
+                while e.get('k') == 'cast':
+                    e = strip(e['e'])
+            path.reverse()
+            if e.get('k') == 'this':
+                return ('this', tuple(path))
+            if e.get('k') == 'ref' and e.get('rk') == 'param':
+                idx = [i for i, p in enumerate(f['params']) if p['name'] == e['name']]
+                return (idx[0] if idx else None, tuple(path))
+            if e.get('k') == 'un' and e.get('op') == '*' and strip(e['e']).get('k') == 'this':
+                return ('this', tuple(path))
+            return (None, tuple(path))
+
+        def ev(e):
+            e = strip(e)
+            while e.get('k') == 'cast':
+                e = strip(e['e'])
+            k = e.get('k')
+            if k == 'bin' and e.get('op') == '&&':
+                a, b = ev(e['lhs']), ev(e['rhs'])
+                return None if a is None or b is None else a | b
+            if k == 'ref' and e.get('rk') == 'local' and e.get('id') in inits:
+                return ev(inits[e['id']])
+            if k == 'call':
+                name = e.get('name')
+                callee = prog.callee(e, f)
+                if name in ('is_zero', 'is_one') and e.get('this') is not None:
+                    who, path = obj_path(e['this'])
+                    if who != 'this':
+                        return None
+                    full = prefix + path
+                    parent = (callee or {}).get('parent') or ''
+                    if callee is not None and 'body' in callee and parent.split('::')[-1] in ('Fq2', 'Fq6', 'Fq12'):
+                        return expand(callee, full, depth + 1)
+                    return frozenset({(name[3], full)})            # 'z' / 'o' of a base-field leaf
+                if name == 'equal' and len(e.get('args', [])) == 2:
+                    (w0, p0), (w1, p1) = obj_path(e['args'][0]), obj_path(e['args'][1])
+                    if {w0, w1} != {0, 1} or p0 != p1:
+                        return None
+                    full = prefix + p0
+                    parent = (callee or {}).get('parent') or ''
+                    if callee is not None and 'body' in callee and parent.split('::')[-1] in ('Fq2', 'Fq6', 'Fq12'):
+                        return expand(callee, full, depth + 1)
+                    return frozenset({('e', full)})
+            return None
+        return ev(rets[0]['e'])
+    for tn in ('Fq2', 'Fq6', 'Fq12'):
+        for pname in ('is_zero', 'is_one', 'equal'):
+            fs = [f for f in prog.fn_by_qn(NS + tn + '::' + pname)]
+            if not fs:
+                continue
+            f = fs[0]
+            lv = leaves(tn)
+            got = expand(f, ())
+            if pname == 'is_zero':
+                want = frozenset(('z', p) for p in lv)
+            elif pname == 'is_one':
+                want = frozenset([('o', lv[0])] + [('z', p) for p in lv[1:]])
+            else:
+                want = frozenset(('e', p) for p in lv)
+            n += 1
+
+            def fmt(s_):
+                return 'not a pure conjunction of coordinate tests' if s_ is None else ' && '.join('%s(%s)' % ({'z': 'zero', 'o': 'one', 'e': 'equal'}[a], '.'.join(p)) for a, p in sorted(s_))
+            ctx.ob(rule, got == want, 'pred|%s::%s' % (tn, pname), loc_str(f),
+                   '%s::%s computes [%s]; the definition requires [%s]' % (tn, pname, fmt(got)[:300], fmt(want)[:300]), cfg=cfg,
+                   sample=dict(config=cfg, predicate='%s::%s' % (tn, pname), coordinates=len(lv)))
     return n
